@@ -541,6 +541,9 @@ class MetaDispatchable(abc.ABCMeta):
 
             try:
                 obj.parse(packet)
+                # what was parsed may re-serialise to a different length than it arrived with (integers with
+                # leading zero bits, non-shortest subpacket lengths, ...): keep the header in step with the body
+                obj.update_hlen()
 
             except Exception as ex:
                 raise PGPError(str(ex)) from ex
